@@ -29,6 +29,15 @@ Definition j_unconstrain (v : nat) (s : sys) : sys := unconstrain v s.
 Definition j_remove_higher (k n : nat) (s : sys) : sys := PolyOps.remove_higher k n s.
 Definition j_project (n m : nat) (s : sys) : sys := project_dims n m s.
 Definition j_concatenate (n : nat) (s t : sys) : sys := concatenate n s t.
+(* the remaining reference transformers of Poly/PolyOps.v (each with its exactness theorem there): generalized and bounded
+   affine images / preimages, unconstrain of a set, partial injective renaming of dimensions, expansion *)
+Definition j_gen_image (v n : nat) (r : relsym) (e : lin) (d : Z) (s : sys) : sys := PolyOps.generalized_affine_image v n r e d s.
+Definition j_gen_preimage (v n : nat) (r : relsym) (e : lin) (d : Z) (s : sys) : sys := PolyOps.generalized_affine_preimage v n r e d s.
+Definition j_bounded_image (v n : nat) (lb ub : lin) (d : Z) (s : sys) : sys := PolyOps.bounded_affine_image v n lb ub d s.
+Definition j_bounded_preimage (v n : nat) (lb ub : lin) (d : Z) (s : sys) : sys := PolyOps.bounded_affine_preimage v n lb ub d s.
+Definition j_unconstrain_set (vs : list nat) (s : sys) : sys := PolyOps.unconstrain_set vs s.
+Definition j_map_dims (pf : list (option nat)) (junk : nat) (s : sys) : sys := PolyOps.map_dims pf junk s.
+Definition j_expand (v n m : nat) (s : sys) : sys := PolyOps.expand v n m s.
 (* the pieces of the complement of a constraint: S \ {c} = union of S /\ piece *)
 Definition j_neg_con (c : con) : list con :=
   let o := {| ccoefs := map Z.opp (ccoefs c); ccst := (- ccst c)%Z; ckd := GT |} in
